@@ -109,13 +109,19 @@ func ZZ_C08_Will() {
 			dis = &packets.Disconnect{Version: conn.Version, Code: code, Properties: &packets.Properties{}}
 		}
 	}
-	// a v5 DISCONNECT may update the session expiry interval (not from 0 to non-zero)
+	// a v5 DISCONNECT may update the session expiry interval
 	if dis != nil && v5 && zzrt.ConcreteBool(zzrt.Bool()) {
 		E2 := zzrt.Uint32()
 		zzrt.Assume(E2 <= 1<<20)
-		zzrt.Assume(zzrt.Implies(E == 0, E2 == 0))
 		dis.Properties.SessionExpiryInterval = &E2
-		E = E2
+		if zzrt.ConcreteBool(E == 0 && E2 != 0) {
+			// raising the expiry from 0 is a protocol error: the DISCONNECT is rejected
+			// as a whole, so it neither changes the expiry nor suppresses the will
+			suppressed = false
+			zzrt.Cover("rejected-disconnect")
+		} else {
+			E = E2
+		}
 	}
 	t1 := time.Now()
 	zzHangUp(c1, dis)
